@@ -1120,6 +1120,32 @@ func c38Features(pg *c38PGraph, op *c38Op) map[string]bool {
 			}
 		}
 	}
+	if op.Kind == "delobjattr" {
+		// deleteObjField applies deleteMapField to the map of EVERY reference of the object, also to
+		// `t.k: {...}` whose map belongs to the descendant k
+		through := false
+		for _, ref := range t.obj.References {
+			if ref.MapKey == nil || ref.Key == nil || ref.InEdge() || len(ref.MapKey.Edges) != 0 || ref.MapKey.Value.Map == nil {
+				continue
+			}
+			if ref.KeyPathIndex < len(ref.Key.Path)-1 {
+				if _, ok := d2ast.ReservedKeywords[ref.Key.Path[ref.KeyPathIndex+1].Unbox().ScalarString()]; !ok {
+					through = true
+				}
+			}
+		}
+		if through {
+			for _, x := range pg.Rows {
+				if x != t && t.isAnc(x) {
+					for _, a := range x.Attrs {
+						if a[0] == op.attr {
+							f["delattr-descendant-map"] = true
+						}
+					}
+				}
+			}
+		}
+	}
 	if op.Kind == "delobj" {
 		for _, e := range pg.Edges {
 			s, d := pg.byObj[e.edge.Src], pg.byObj[e.edge.Dst]
@@ -1197,6 +1223,30 @@ func c38Features(pg *c38PGraph, op *c38Op) map[string]bool {
 			if dotted > 0 && (pm || nonEdge >= 2) {
 				f["move-dotted-ref"] = true
 			}
+			if !op.Incl {
+				// filterReserved keeps dotted reserved keys (`style.stroke: x`) of a dotted reference behind
+				for _, ref := range t.obj.References {
+					if ref.MapKey == nil || ref.Key == nil || ref.InEdge() || len(ref.MapKey.Edges) != 0 || ref.MapKey.Value.Map == nil {
+						continue
+					}
+					d := false
+					for j := 0; j < ref.KeyPathIndex; j++ {
+						if ref.Key.Path[j].Unbox().ScalarString() != "_" {
+							d = true
+						}
+					}
+					if !d || ref.KeyPathIndex != len(ref.Key.Path)-1 {
+						continue
+					}
+					for _, n := range ref.MapKey.Value.Map.Nodes {
+						if n.MapKey != nil && n.MapKey.Key != nil && len(n.MapKey.Key.Path) > 1 {
+							if _, ok := d2ast.ReservedKeywords[n.MapKey.Key.Path[0].Unbox().ScalarString()]; ok {
+								f["move-dotted-ref"] = true
+							}
+						}
+					}
+				}
+			}
 			// the destination has no map of its own and is only passed through by a dotted key that carries a
 			// primary value (`d.c: L3 {...}` with destination d): splitting that key drops the primary onto d
 			if op.dest != nil {
@@ -1271,6 +1321,7 @@ func c38KF(pg *c38PGraph, op *c38Op, text string) []string {
 		"flat-field-leak":                "C38-delete-flat-field-leaks-to-parent",
 		"hoist-undetected-child":         "C38-hoist-conflict-not-detected-for-flat-field-child",
 		"edge-key-ref-to-own-descendant": "C38-delete-edge-key-reference-resurrects-object",
+		"delattr-descendant-map":         "C38-delete-attribute-also-resets-descendant",
 	})
 }
 
@@ -1312,6 +1363,8 @@ var c38Scripts = []c38Step{
 	// edge between the deleted object and its own child, also addressed by an edge-key reference from outside
 	{"p: L2 {\n  q: L3 {\n    x: L4\n  }\n  q.x -> q: E1\n}\np.(q.x -> q)[0].style.opacity: 0.5\n", "delobj", "p.q", "", false},
 	// attributes
+	{"y: L1 {\n  height: 120\n}\ny.a: L2 {\n  height: 333\n}\n", "delobjattr", "y.height", "", false},
+	{"p: L1\np.c: L2 {\n  style.stroke: orange\n  height: 200\n}\nq: L3\n", "move", "p.c", "q.c", false},
 	{c38Corpus[4], "delobjattr", "d.tooltip", "", false},
 	{c38Corpus[4], "deledgeattr", "(a.b.c -> d)[0].style.stroke", "", false},
 	{c38Corpus[4], "delobj", "a.b", "", false},
